@@ -698,6 +698,96 @@ def show(t):
 LAMBDAS = []      # (Lambda node, env, store, builder) of every ('lambda', i, params) term built in this process
 
 
+_KNOWN = []
+
+
+def _is_new_class(ci):
+    """Object terms are interpreted only for classes that are not part of the reviewed inventory (sa/known_functions.txt),
+    i.e. small helper classes introduced by a restructuring; instances of reviewed classes keep their own rules."""
+    if not _KNOWN:
+        from . import normalize
+        _KNOWN.append(normalize.load_known() or set())
+    known = _KNOWN[0]
+    return not any(q.startswith(ci.qualname + '.') for q in known)
+
+
+def _frozen_fields(idx, ci):
+    """{field: term builder info} of the attributes that only __init__ assigns (once, at top level, no other method or
+    augmented store touches them): reading such a field of `C(args)` is reading the constructor's expression."""
+    cached = getattr(ci, '_sa_frozen', None)
+    if cached is not None:
+        return cached
+    init = ci.methods.get('__init__')
+    out = {}
+    if init is not None and not (init.node.args.vararg or init.node.args.kwarg) and init.params:
+        me = init.params[0]
+        counts = {}
+        for name, f in ci.methods.items():
+            sname = f.params[0] if f.params and not f.is_static else None
+            for n in ast.walk(f.node):
+                if isinstance(n, ast.Attribute) and isinstance(n.ctx, (ast.Store, ast.Del)) and isinstance(n.value, ast.Name) \
+                        and n.value.id == sname:
+                    counts[n.attr] = counts.get(n.attr, 0) + (1 if name == '__init__' else 100)
+        # a store to an attribute of that name anywhere else in the module (e.g. a method inlined into its caller) unfreezes it
+        for n in ast.walk(ci.module.tree):
+            if isinstance(n, ast.Attribute) and isinstance(n.ctx, (ast.Store, ast.Del)) and n.attr in counts:
+                inside_init = any(n is x for x in ast.walk(init.node))
+                if not inside_init and not any(any(n is x for x in ast.walk(f.node)) for f in ci.methods.values()):
+                    counts[n.attr] += 100
+        for st in init.node.body:
+            if isinstance(st, ast.Assign) and len(st.targets) == 1 and isinstance(st.targets[0], ast.Attribute) \
+                    and isinstance(st.targets[0].value, ast.Name) and st.targets[0].value.id == me and counts.get(st.targets[0].attr) == 1:
+                out[st.targets[0].attr] = st.value
+    ci._sa_frozen = (init, out)
+    return ci._sa_frozen
+
+
+def object_field(idx, obj, attr):
+    """Term of `obj.attr` for obj = ('call', <package class>, args, kwargs), when attr is a frozen field; else None."""
+    ci = idx.classes.get(obj[1]) if obj[0] == 'call' else None
+    if ci is None or not obj[1].startswith('mitxgraders.') or not _is_new_class(ci):
+        return None
+    init, fields = _frozen_fields(idx, ci)
+    if init is None or attr not in fields:
+        return None
+    params = init.params[1:]
+    if len(obj[2]) > len(params):
+        return None
+    env = dict(zip(params, obj[2]))
+    env.update({k: v for k, v in obj[3]})
+    if set(params) - set(env):
+        return None
+    # earlier frozen fields may be read through self.<field> in later initialisers
+    return TermBuilder(idx, init, self_name='\0none').build(fields[attr], dict(env, **{init.params[0]: obj}))
+
+
+def object_method(idx, obj, name, args, kwargs, depth=0):
+    """Value of `obj.name(args)` for a method that only reads its arguments and frozen fields and returns on every path;
+    several paths are joined by conditional expressions.  None when the method is not of that kind."""
+    ci = idx.classes.get(obj[1]) if obj[0] == 'call' else None
+    if ci is None or not obj[1].startswith('mitxgraders.') or kwargs or depth > 3 or not _is_new_class(ci):
+        return None
+    callee = idx.lookup(ci, name)
+    if callee is None or callee.is_static or callee.node.args.vararg or callee.node.args.kwarg or len(callee.params) != len(args) + 1:
+        return None
+    if any(isinstance(n, ast.Attribute) and isinstance(n.ctx, (ast.Store, ast.Del)) for n in ast.walk(callee.node)) or \
+            any(isinstance(n, (ast.For, ast.While, ast.Try, ast.With, ast.Global, ast.Nonlocal, ast.Yield)) for n in ast.walk(callee.node)):
+        return None
+    env = dict(zip(callee.params[1:], args))
+    env[callee.params[0]] = obj
+    try:
+        paths = sym_exec(idx, callee, env=env, builder=TermBuilder(idx, callee, self_name='\0none'))
+    except Unsupported:
+        return None
+    if not paths or any(p.kind != 'ret' or p.effects or p.store for p in paths):
+        return None
+    val = paths[-1].value
+    for p in reversed(paths[:-1]):
+        cond = p.conds[0] if len(p.conds) == 1 else ('and', tuple(p.conds))
+        val = ('ifexp', cond, p.value, val)
+    return val
+
+
 class TermBuilder(object):
     """AST expression -> term, with forward-substituted locals (`env`) and a store for self.config / self.<attr>."""
 
@@ -764,6 +854,10 @@ class TermBuilder(object):
             base = b(e.value)
             if base[0] == 'ext':
                 return ('ext', base[1] + '.' + e.attr)
+            if base[0] == 'call' and base[1] in self.idx.classes:
+                fld = object_field(self.idx, base, e.attr)
+                if fld is not None:
+                    return fld
             key = ('attr', base, e.attr)
             if key in store:
                 return store[key]
@@ -824,6 +918,10 @@ class TermBuilder(object):
                 recv = b(f.value)
                 if recv[0] == 'ext':
                     return ('call', recv[1] + '.' + f.attr, args, kwargs)
+                if recv[0] == 'call' and recv[1] in self.idx.classes:
+                    got = object_method(self.idx, recv, f.attr, args, kwargs)
+                    if got is not None:
+                        return got
                 return ('meth', recv, f.attr, args, kwargs)
             ft = b(f)
             if ft[0] == 'ext':
@@ -854,6 +952,12 @@ class TermBuilder(object):
                     items.append((self._b(e.key, env2, store), self._b(e.value, env2, store)))
                 return ('dict', tuple(items))
             return ('opaque', 'DictComp:' + short(e, 60))
+        if isinstance(e, (ast.ListComp, ast.GeneratorExp)) and len(e.generators) == 1 and not e.generators[0].ifs \
+                and isinstance(e.generators[0].target, ast.Name):
+            seq = b(e.generators[0].iter)
+            if seq[0] in ('tuple', 'list') and len(seq[1]) <= 32:
+                return ('list', tuple(self._b(e.elt, dict(env, **{e.generators[0].target.id: x}), store) for x in seq[1]))
+            return ('opaque', type(e).__name__ + ':' + short(e, 60))
         if isinstance(e, ast.Dict) and all(k is not None for k in e.keys):
             return ('dict', tuple((b(k), b(v)) for k, v in zip(e.keys, e.values)))
         if isinstance(e, ast.Lambda) and not (e.args.vararg or e.args.kwarg or e.args.kwonlyargs or e.args.defaults):
@@ -917,9 +1021,10 @@ class _Bind(ast.stmt):
         self.term = term
 
 
-def sym_exec(idx, fi, stmts=None, env=None, store=None, loops='error', max_paths=400, builder=None):
+def sym_exec(idx, fi, stmts=None, env=None, store=None, loops='error', max_paths=400, builder=None, capture=None, self_cls=None):
     """Enumerate the paths of `stmts` (default: the body of fi) with forward substitution of locals,
-    of `self.config[...]` writes and of `self.<attr>` writes."""
+    of `self.config[...]` writes and of `self.<attr>` writes.  `capture`: dict {id(stmt): None} that is filled with the
+    (env, store) in force the first time each listed statement is reached."""
     tb = builder or TermBuilder(idx, fi)
     out = []
 
@@ -947,9 +1052,26 @@ def sym_exec(idx, fi, stmts=None, env=None, store=None, loops='error', max_paths
             raise Unsupported('too many paths')
         for i, s in enumerate(stmts):
             BUDGET.tick(3)
+            if capture is not None and id(s) in capture and capture[id(s)] is None:
+                capture[id(s)] = (dict(env), dict(store))
             if isinstance(s, ast.Expr):
                 if isinstance(s.value, ast.Constant):
                     continue
+                c = s.value
+                # setattr(self, 'name', v)  ==  self.name = v ;  self.<list>.append(v) extends a list held in the store
+                if isinstance(c, ast.Call) and isinstance(c.func, ast.Name) and c.func.id == 'setattr' and len(c.args) == 3 and not c.keywords:
+                    tgt, nm = tb.build(c.args[0], env, store), tb.build(c.args[1], env, store)
+                    if tgt == ('self',) and nm[0] == 'str':
+                        store = dict(store)
+                        store[('attr', ('self',), nm[1])] = tb.build(c.args[2], env, store)
+                        effects = effects + [(('setcfg', ('attr', ('self',), nm[1]), store[('attr', ('self',), nm[1])]), s)]
+                        continue
+                if isinstance(c, ast.Call) and isinstance(c.func, ast.Attribute) and c.func.attr == 'append' and len(c.args) == 1 and not c.keywords:
+                    loc_t = tb.build(c.func.value, env, {})
+                    if loc_t in store and store[loc_t][0] == 'list':
+                        store = dict(store)
+                        store[loc_t] = ('list', store[loc_t][1] + (tb.build(c.args[0], env, store),))
+                        continue
                 effects = effects + [(tb.build(s.value, env, store), s)]
                 continue
             if isinstance(s, ast.Pass):
@@ -1016,6 +1138,10 @@ def sym_exec(idx, fi, stmts=None, env=None, store=None, loops='error', max_paths
                     isinstance(s.target, (ast.Tuple, ast.List)) and all(isinstance(t_, ast.Name) for t_ in s.target.elts))):
                 # `for x in (a, b, c)` / `for c, m in ((c1, m1), ...)` over a literal (or a local bound to one) is unrolled
                 it = tb.build(s.iter, env, store)
+                if it[0] == 'attr' and it[1] == ('self',) and self_cls is not None:
+                    _holder, node_ = idx.lookup_attr(self_cls, it[2])         # a class-level literal table of the concrete class
+                    if isinstance(node_, (ast.Tuple, ast.List)):
+                        it = tb.build(node_, {}, {})
                 if it[0] == 'meth' and it[1] == ('self',) and not it[4]:
                     # the table may be built by a helper method that the normaliser left in place (idx.unreviewed)
                     owner = fi
@@ -1050,6 +1176,21 @@ def sym_exec(idx, fi, stmts=None, env=None, store=None, loops='error', max_paths
                 env = {k: v for k, v in env.items() if k not in assigned}
                 for a in assigned:
                     env[a] = ('opaque', 'assigned-in-%s:%s' % (type(s).__name__, a))
+                # attributes / config entries stored inside the opaque statement are unknown afterwards
+                attrs = {n.attr for n in ast.walk(s) if isinstance(n, ast.Attribute) and isinstance(n.ctx, (ast.Store, ast.Del))}
+                if attrs:
+                    store = dict(store)
+                    for k in list(store):
+                        if k[0] == 'attr' and k[2] in attrs:
+                            store[k] = ('opaque', 'assigned-in-%s:.%s' % (type(s).__name__, k[2]))
+                    for n in ast.walk(s):
+                        if isinstance(n, ast.Attribute) and isinstance(n.ctx, ast.Store):
+                            try:
+                                loc_t = tb.build(_as_load(n), env, {})
+                            except Exception:     # pragma: no cover
+                                continue
+                            if loc_t[0] == 'attr':
+                                store[loc_t] = ('opaque', 'assigned-in-%s:.%s' % (type(s).__name__, n.attr))
                 effects = effects + [(('stmt', type(s).__name__), s)]
                 continue
             raise Unsupported('statement %s at line %s is outside the supported subset' % (type(s).__name__, getattr(s, 'lineno', '?')))
